@@ -291,6 +291,33 @@ pub fn execute_stall(p: &Program, prefix: &[usize], horizon: usize, on_decision:
         f.fail_writes = false;
         f.fail_fsyncs = false;
     }
+    if ex.unjoined == 0 && matches!(ex.outcome, Outcome::Completed) && !close_in_program && p.cfg.persistent && fault == (0, false, false) {
+        // C05 / C10 at the quiescent point the threads themselves reached: when every thread's last call
+        // is an acknowledged flush(), the newest valid metadata copy in the file - read by the independent
+        // decoder, before the harness flushes anything itself - must carry the live totals.
+        let all_flushed = !p.threads.is_empty()
+            && p.threads.iter().enumerate().all(|(ti, ops)| {
+                matches!(ops.last(), Some(Op::Flush)) && ex.recs.iter().any(|r| r.thread == ti && r.idx + 1 == ops.len() && r.out == Out::Unit)
+            });
+        if let (true, Some(path)) = (all_flushed, sut.path.as_ref()) {
+            if let Ok(image) = std::fs::read(path) {
+                let d = crate::layoutref::decode(&image);
+                let dump = sut.store().verif_dump();
+                let live_records = dump.records.len() as u64;
+                let live_bytes: u64 = dump.records.iter().map(|r| r.blocks * 4096).sum();
+                match d.meta.as_ref() {
+                    None => ex.monitor.push("C10: no valid metadata copy in the file after every thread's flush() had returned".into()),
+                    Some(m) if dump.buffered.is_empty() && dump.records.iter().all(|r| r.sector != 0) && (m.total_records != live_records || m.total_size != live_bytes) => {
+                        ex.monitor.push(format!(
+                            "C05: after every thread's flush() had returned the persisted counters (records {}, bytes {}) differ from the live totals ({live_records}, {live_bytes}); C10: metadata counters differ from the live totals",
+                            m.total_records, m.total_size
+                        ));
+                    }
+                    _ => {}
+                }
+            }
+        }
+    }
     if ex.unjoined == 0 && matches!(ex.outcome, Outcome::Completed) && !close_in_program {
         // quiescent observations
         if p.cfg.persistent && p.name.starts_with("wb:") {
